@@ -116,7 +116,7 @@ func (r *c13Run) dial(bound time.Duration) (*varlink.Connection, error) {
 	ctx, cancel := context.WithTimeout(context.Background(), bound)
 	defer cancel()
 	var last error
-	for i := 0; i < 300; i++ {
+	for dl := time.Now().Add(bound); time.Now().Before(dl); {
 		c, err := varlink.NewConnection(ctx, r.addr)
 		if err == nil {
 			return c, nil
@@ -421,7 +421,7 @@ func checkC13Res(c C13ResCase, st *Stats) error {
 	cctx, ccancel := context.WithTimeout(context.Background(), bound)
 	defer ccancel()
 	var res *varlink.Resolver
-	for i := 0; i < 300; i++ {
+	for dl := time.Now().Add(bound); time.Now().Before(dl); {
 		res, err = varlink.NewResolver(cctx, addr)
 		if err == nil {
 			break
